@@ -286,3 +286,104 @@ func (p *PathConds) Holds(b *ssa.BasicBlock, lit string) bool {
 	}
 	return false
 }
+
+// dnfAtoms collects the atoms of a DNF.
+func dnfAtoms(ds ...dnf) []string {
+	set := map[string]bool{}
+	for _, d := range ds {
+		for _, c := range d.cs {
+			for _, l := range c {
+				set[l[1:]] = true
+			}
+		}
+	}
+	var out []string
+	for a := range set {
+		out = append(out, a)
+	}
+	sort.Strings(out)
+	return out
+}
+
+func evalDNF(d dnf, asg map[string]bool) bool {
+	for _, c := range d.cs {
+		ok := true
+		for _, l := range c {
+			if asg[l[1:]] != (l[0] == '+') {
+				ok = false
+				break
+			}
+		}
+		if ok {
+			return true
+		}
+	}
+	return false
+}
+
+// dnfEquiv decides propositional equivalence by truth table (atoms are opaque; at most 16).
+func dnfEquiv(a, b dnf) bool {
+	if a.unknown || b.unknown {
+		return false
+	}
+	atoms := dnfAtoms(a, b)
+	if len(atoms) > 16 {
+		return false
+	}
+	for mask := 0; mask < 1<<uint(len(atoms)); mask++ {
+		asg := map[string]bool{}
+		for i, at := range atoms {
+			asg[at] = mask&(1<<uint(i)) != 0
+		}
+		if evalDNF(a, asg) != evalDNF(b, asg) {
+			return false
+		}
+	}
+	return true
+}
+
+// dnfImplies decides a => b by truth table.
+func dnfImplies(a, b dnf) bool {
+	if a.unknown || b.unknown {
+		return false
+	}
+	atoms := dnfAtoms(a, b)
+	if len(atoms) > 16 {
+		return false
+	}
+	for mask := 0; mask < 1<<uint(len(atoms)); mask++ {
+		asg := map[string]bool{}
+		for i, at := range atoms {
+			asg[at] = mask&(1<<uint(i)) != 0
+		}
+		if evalDNF(a, asg) && !evalDNF(b, asg) {
+			return false
+		}
+	}
+	return true
+}
+
+// mkDNF builds a DNF from conjunctions of literals ("+a", "-b").
+func mkDNF(conjs ...[]string) dnf {
+	var d dnf
+	for _, c := range conjs {
+		cc := append(conj{}, c...)
+		sort.Strings(cc)
+		d.cs = append(d.cs, cc)
+	}
+	return d
+}
+
+// canonOf renames parameters in every literal of d.
+func (p *PathConds) canonOf(d dnf) dnf {
+	out := dnf{unknown: d.unknown}
+	for _, c := range d.cs {
+		var cc conj
+		for _, l := range c {
+			cc = append(cc, l[:1]+p.t.Canon(l[1:]))
+		}
+		sort.Strings(cc)
+		out.cs = append(out.cs, cc)
+	}
+	return out
+}
